@@ -78,6 +78,7 @@ func runSerClosed(c *core.Ctx) {
 		bt, ok := sl.Elem().Underlying().(*types.Basic)
 		return ok && bt.Kind() == types.Uint8
 	}
+	var rc *runCopy
 	allowedConst := map[string]bool{`const:"[0,"`: true, "global:nullJSON": true}
 	punct := map[int64]bool{',': true, '[': true, ']': true, '"': true}
 	for _, fn := range fns {
@@ -116,6 +117,18 @@ func runSerClosed(c *core.Ctx) {
 				}
 				if okAll {
 					return
+				}
+			}
+			// a run of verbatim bytes flushed by a verified run-copying escaper
+			if fn == esc {
+				if _, isSlice := x.(*ssa.Slice); isSlice {
+					if rc == nil {
+						r := escaperRunCopy(esc)
+						rc = &r
+					}
+					if rc.ok && rc.flushes[call] {
+						return
+					}
 				}
 			}
 			// an entry of the escape table
@@ -172,6 +185,10 @@ func runSerClosed(c *core.Ctx) {
 func nonLocalSources(fn *ssa.Function, v ssa.Value) (descs []string, params []*ssa.Parameter) {
 	for _, s := range an.Sources(fn, v) {
 		if an.IsLocalRoot(s) {
+			continue
+		}
+		// the nil a lazily allocated local container starts from is nobody's memory
+		if k, isK := s.(*ssa.Const); isK && k.IsNil() {
 			continue
 		}
 		// values freshly returned by calls are owned by the caller — for a module function
